@@ -27,7 +27,7 @@ def cases(tier, seed, shard, nshards):
     if tier == "thorough" and shard in (0, 1):
         yield _sim.regression_case(shard)
     # scale cases: large in one dimension (one per shard for the first shards; all of them, twice, in the thorough tier)
-    _kinds = ["many-small:naive", "many-small:naive", "crowd:naive"]
+    _kinds = ["many-small:naive", "fail-crowd:naive", "crowd:naive", "fail-crowd:naive"]
     for _j, _kd in enumerate(_kinds * (1 if tier == "quick" else 2)):
         if tier == "thorough" or _j == shard:
             _k, _, _a = _kd.partition(":")
